@@ -17,7 +17,8 @@ THOROUGH_REPEAT_SKIP = ("fos",)
 ASSUMPTIONS = [
     "documented formulas recomputed with Hermitian eigendecompositions (never sqrtm): fidelity = root fidelity |sqrt(rho) sqrt(sigma)|_1 as documented, "
     "bures_angle = arccos sqrt F, helstrom_holevo = 1/2 + 1/4 |rho - sigma|_1 as documented",
-    "tolerance 1e-6 (matrix functions on singular inputs); Bures quantities are compared through 2(1-F) resp. cos^2 because the library rounds F to 10 decimals",
+    "tolerance 1e-6 (matrix functions on singular inputs); Bures quantities are compared through 2(1-F) resp. cos^2 because the library rounds F to 10 decimals: "
+    "1e-9 when both states have lambda_min >= 1e-3, 5e-6 otherwise",
     "Matsumoto fidelity only for full-rank pairs (lambda_min >= 0.02)",
     "fidelity of separability through picos/cvxopt, tolerance 1e-5; 3x3 with k=2 costs ~90 s and is run in the thorough tier only",
 ]
@@ -76,7 +77,8 @@ def make_pair(rng, r):
         rho = 0.9 * gen.density(rng, d, d, cplx) + 0.1 * np.eye(d) / d  # lambda_min >= 0.1/d, so the 1e-6 perturbation stays a density operator
         h = gen.hermitian(rng, d, cplx)
         h -= np.trace(h) / d * np.eye(d)
-        sig = rho + 1e-6 * h / np.linalg.norm(h)
+        dist = [1e-6, 1e-4, 1e-3, 1e-2][(r // 10) % 4]  # from "equal up to rounding of the fidelity" to clearly distinct
+        sig = rho + dist * h / np.linalg.norm(h)
         sig = ref.herm(sig)
     if not cplx:
         rho, sig = rho.real, sig.real
@@ -173,10 +175,13 @@ def _run_pair(ctx, spec, rng):
     f = m["fidelity"]
     bd = _val(ctx, bures_distance, rho.copy(), sig.copy())
     if bd is not None:
-        ctx.check("O1:bures_distance", None, dev=abs(float(bd) ** 2 - 2 * (1 - min(1.0, f))), tol=5e-6, sig=sig_, nt=nt, mech="bures_distance:definition", detail=dict(det, library=bd, F=f))
+        # the library rounds F to 10 decimals; on full-rank pairs the fidelity itself is accurate to ~1e-12, on singular ones to ~1e-6
+        well = min(ref.eigmin(rho), ref.eigmin(sig)) >= 1e-3  # well-conditioned pair
+        btol = 1e-9 if well else 5e-6
+        ctx.check("O1:bures_distance", None, dev=abs(float(bd) ** 2 - 2 * (1 - min(1.0, f))), tol=btol, sig=sig_, nt=nt, mech="bures_distance:definition", detail=dict(det, library=bd, F=f))
     ba = _val(ctx, bures_angle, rho.copy(), sig.copy())
     if ba is not None:
-        ctx.check("O1:bures_angle", None, dev=abs(np.cos(float(ba)) ** 2 - min(1.0, f)), tol=5e-6, sig=sig_, nt=nt, mech="bures_angle:definition", detail=dict(det, library=ba, F=f))
+        ctx.check("O1:bures_angle", None, dev=abs(np.cos(float(ba)) ** 2 - min(1.0, f)), tol=1e-9 if min(ref.eigmin(rho), ref.eigmin(sig)) >= 1e-3 else 5e-6, sig=sig_, nt=nt, mech="bures_angle:definition", detail=dict(det, library=ba, F=f))
         ctx.check("O1:bures_angle", 0 <= float(ba) <= np.pi / 2 + 1e-9, sig=sig_ + ("range",), mech="bures_angle:out-of-range", detail=dict(det, library=ba))
     full = ref.eigmin(rho) >= 0.02 and ref.eigmin(sig) >= 0.02
     mf = None
